@@ -51,6 +51,11 @@ def productions(prog):
         e = by_name.get('utils::%s::{closure#0}' % h)
         if e is not None:
             out['utils::' + h] = ('terminal', e, e)
+    # delimiter helpers: closures returned by paren/bracket/brace/apostrophe_brace/paren_exact, inner parser abstract
+    for h in ('paren', 'paren_exact', 'bracket', 'brace', 'apostrophe_brace'):
+        e = by_name.get('utils::%s::{closure#0}' % h)
+        if e is not None:
+            out['utils::' + h] = ('delimiter', e, e)
     global SPAN_RETURNING
     SPAN_RETURNING = set()
     for simple, (kind, body, outer) in out.items():
@@ -74,7 +79,62 @@ def callees_text(prog, entry):
 _PRODS = None
 
 
-def analyze(name, info, summaries=None, nonnullable=None, dir_depth=1, ver_depth=1, max_paths=1500, extra_env=None, time_cap=25):
+def is_nullable(name, info, nonnullable, hard_failing=(), summaries=None, time_cap=20):
+    """can the production succeed without consuming?  paths are abandoned as soon as they provably consumed input,
+    so the exploration is small and complete.  Returns True / False / None (budget exhausted)"""
+    P = E.prog()
+    kind, body, outer = info
+    f = P.func(body)
+    global _PRODS
+    if _PRODS is None:
+        _PRODS = set(productions(P))
+    mdl = Models()
+    G.install(mdl, _PRODS)
+
+    def run(it):
+        it.env['g'] = G.GState()
+        it.env['tls'] = G.fresh_tls(1, 1)
+        it.env['const_hook'] = G.const_hook_tls
+        it.env['summaries'] = summaries or {}
+        it.env['nonnullable'] = nonnullable
+        it.env['hard_failing'] = hard_failing
+        it.env['self_name'] = name
+        it.env['span_returning'] = SPAN_RETURNING
+        p_in = z3.Int('p_in')
+        it.assume(z3.And(p_in >= 0, p_in <= G.TOTAL))
+        it.env['nullability_mode'] = True
+        it.env['p_in'] = p_in
+        sp = G.span(p_in)
+        try:
+            if kind == 'packrat':
+                clo = Closure(body.closure_span or '', [Ref([sp], 0)])
+                r = it.run_func(f, [Ref([clo], 0)])
+            elif kind == 'terminal':
+                clo = Closure(body.closure_span or '', [E.AbsStr(z3.Int('taglen'))])
+                it.assume(z3.Int('taglen') >= 1)
+                r = it.run_func(f, [Ref([clo], 0), sp])
+            elif kind == 'delimiter':
+                clo = Closure(body.closure_span or '', [E.FnItem('inner_of_delimiters')])
+                r = it.run_func(f, [Ref([clo], 0), sp])
+            else:
+                r = it.run_func(f, [sp])
+        except G.Consumed:
+            return False
+        r = it.concretize(r)
+        if r.variant != 'Ok':
+            return False
+        return bool(it.feasible(r.fields[0].fields[0].data['off'] == p_in))
+    ex = Explorer(P, mdl, run, max_paths=6000, step_limit=600_000)
+    ex.deadline = time.time() + time_cap
+    res = ex.run()
+    if any(r.outcome == 'ok' and r.value for r in res):
+        return True
+    if ex.truncated:
+        return None
+    return False
+
+
+def analyze(name, info, summaries=None, nonnullable=None, hard_failing=(), dir_depth=1, ver_depth=1, max_paths=1500, extra_env=None, time_cap=25):
     """all paths of one production body.  Returns dict(paths=[...], stats)"""
     P = E.prog()
     kind, body, outer = info
@@ -92,6 +152,7 @@ def analyze(name, info, summaries=None, nonnullable=None, dir_depth=1, ver_depth
         it.env['const_hook'] = G.const_hook_tls
         it.env['summaries'] = summaries or {}
         it.env['nonnullable'] = nonnullable
+        it.env['hard_failing'] = hard_failing
         it.env['self_name'] = name
         it.env['span_returning'] = SPAN_RETURNING
         if extra_env:
@@ -107,11 +168,15 @@ def analyze(name, info, summaries=None, nonnullable=None, dir_depth=1, ver_depth
             clo = Closure(body.closure_span or '', [E.AbsStr(z3.Int('taglen'))])
             it.assume(z3.Int('taglen') >= 1)
             r = it.run_func(f, [Ref([clo], 0), sp])
+        elif kind == 'delimiter':
+            clo = Closure(body.closure_span or '', [E.FnItem('inner_of_delimiters')])
+            r = it.run_func(f, [Ref([clo], 0), sp])
         else:
             r = it.run_func(f, [sp])
         r = it.concretize(r)
         after = G.tls_snapshot(it.env['tls'])
         fact = {'ok': r.variant == 'Ok', 'log': list(it.env['g'].log)}
+        fact['failure'] = (r.variant == 'Err' and type(r.fields[0]) is Enum and r.fields[0].variant == 'Failure')
         # V2: net effect + content preserved below the entry depth
         dd = len(after[0]) - len(before[0])
         dv = len(after[1]) - len(before[1])
